@@ -319,6 +319,17 @@ def initial_values(rng, mode="G"):
        dump_format=rng.choice(DUMP_FORMATS))
     tp(year=y(), month_of_year=rng.randint(1, 12), day_of_month=rng.randint(1, 28),
        num_expanded_year_digits=2, dump_format=rng.choice(DUMP_FORMATS[:6]))
+    # the clamping branches of year/month arithmetic: last day of a leap year, 29 February, week 53, a 31st
+    ly = rng.choice([1996, 2000, 2004, 2008, 2012, 2016, 2020, 2024])
+    for kw in (dict(year=ly, day_of_year={"360": 360, "365": 365}.get(mode, 366), hour_of_day=rng.randint(0, 23)),
+               dict(year=ly, month_of_year=2, day_of_month={"360": 30, "365": 28}.get(mode, 29), hour_of_day=rng.randint(0, 23),
+                    minute_of_hour=rng.randint(0, 59)),
+               dict(year=rng.choice([1998, 2004, 2009, 2015, 2020]), week_of_year=53, day_of_week=rng.randint(1, 7), hour_of_day=6),
+               dict(year=y(), month_of_year=rng.choice([1, 3, 5, 7, 8, 10, 12]), day_of_month=30 if d360 else 31, hour_of_day=18)):
+        try:
+            tp(**kw)
+        except ValueError:
+            pass      # e.g. no week 53 in that year of this calendar
     # truncated points
     vals.append(TimePoint(truncated=True, hour_of_day=rng.randint(0, 23), minute_of_hour=rng.randint(0, 59)))
     vals.append(TimePoint(truncated=True, day_of_month=rng.randint(1, 28), time_zone_hour=0))
@@ -332,6 +343,8 @@ def initial_values(rng, mode="G"):
                          seconds=rng.randint(0, 90)))
     vals.append(Duration(years=rng.randint(0, 2), months=rng.randint(1, 14), days=rng.randint(0, 3)))
     vals.append(Duration(days=-rng.randint(1, 30), hours=-rng.randint(0, 23)))
+    vals.append(Duration(years=rng.choice([1, -1, 3, 5])))
+    vals.append(Duration(months=rng.choice([1, -1, 12, -11])))
     vals.append(Duration(hours=rng.choice([0.5, 1.25]), seconds=rng.choice([0.5, 30])))
     vals.append(Duration(seconds=rng.randint(1, 100000), standardize=True))
     # zones
